@@ -36,6 +36,9 @@ HAND = ["(a\\1)", "(a|b\\1)+", "(\\1a)+b", "((a)|b?)+", "(?:(a)|b)+", "(?=(a)b|a
 HAND += ["(?!(a)b)ac", "(?!(a)(b)c)ab", "(?!(a)b)a(c)", "(?<!(a)b)c", "(?<!(b)(a))c", "(?!(a+)b)a*c", "(?!(?:(a)|(b))c)[ab]b", "(?=(a)b|(a)c)a", "(?=(?:(a)b|a)c)a",
          "(?:(?!(a)b)a)+", "(?=(a+?)b|(a+)c)a+", "(?!(a)\\1b)aac", "(?<=(a)b|(c))d", "(?<!(a)b|c)d", "(?=(a)(?!(b)c)b)ab", "(?!(?=(a))b)a", "(?=(?!(a)b)(a))ac",
          "(a)(?!(b)c)b\\2", "((?!(a)b)a)+c", "(?!(a)|(b))c", "(?!(a){2}b)aac"]
+# nested quantifiers over bodies that can match the empty string
+HAND += ["((a?){1,3})+c", "(?:(?:a*){2})*b", "(?:(?:a|){2,})*?c", "(?:(a*){2})+$", "((a*)+)*b", "((a|b?)+)*c", "(?:(?:a?)+){2}b", "((?:a*)+?)+b", "(?:(a?){2})*", "((a*){1,2})+?b",
+         "(?:(?:a|b*){1,}){2}c", "((?:a?b?){2})*c", "(?:(a{0,2}){2,})+b", "((a*)*)*", "(?:(?=a)|b*){2}a", "((?:)|a)+b", "(a*?){2,3}b", "(?:(a+)?){3}b"]
 pats.update(HAND)
 while len(pats) < 2600:
     ng = [0]
